@@ -37,6 +37,13 @@ func cliRun(c cliCase) map[string]interface{} {
 			die("%v", err)
 		}
 	}
+	if c.outdir != "" {
+		// the output directory exists already and holds longer files under the names that are going to be written
+		os.MkdirAll(filepath.Join(dir, c.outdir), 0755)
+		for name, txt := range c.inprocD {
+			os.WriteFile(filepath.Join(dir, c.outdir, name), []byte(txt+strings.Repeat("STALETAILOFANEARLIERRUN\n", 3)), 0644)
+		}
+	}
 	args := make([]string, len(c.args))
 	for i, a := range c.args {
 		if strings.HasPrefix(a, "@") {
